@@ -107,6 +107,7 @@ type tr struct {
 	fds   []int
 	tmp   []string
 	rem   map[string]int
+	spareEp int
 	nextID int
 }
 
@@ -334,3 +335,27 @@ func sortedKeys(m map[string]func(*tr)) []string {
 }
 
 func ptr(b []byte) unsafe.Pointer { return unsafe.Pointer(&b[0]) }
+
+// maskNoFd: readiness of fd for EPOLLIN through select-free means when no descriptor is left for a
+// fresh epoll instance: a zero-length non-blocking accept/read probe is not possible for listeners, so an
+// epoll instance created earlier is used.
+func (t *tr) maskNoFd(fd int) string {
+	if t.spareEp == 0 {
+		return "no spare epoll"
+	}
+	a := t.a
+	ev := &syscall.EpollEvent{Events: syscall.EPOLLIN, Fd: int32(fd)}
+	if err := a.EpollCtl(t.spareEp, syscall.EPOLL_CTL_ADD, fd, ev); err != nil {
+		return "ctl:" + es(err)
+	}
+	defer a.EpollCtl(t.spareEp, syscall.EPOLL_CTL_DEL, fd, ev)
+	evs := make([]syscall.EpollEvent, 2)
+	n, err := a.EpollWait(t.spareEp, evs, 0)
+	if err != nil {
+		return "wait:" + es(err)
+	}
+	if n == 0 {
+		return "none"
+	}
+	return maskStr(evs[0].Events)
+}
